@@ -1,10 +1,12 @@
 import OV.Model.C06Match
+import OV.Model.C06Exc
+import OV.Model.C06Rule
 import OV.Model.C06Spec
 import OV.Model.C06Commute
 import OV.Drivers.Loop
 /-! Line-protocol driver for C06.
 
-`C06 <mode> <rm> <root> <pattern> <graph>`  with mode ∈ impl | spec | commute.
+`C06 <mode> <rm> <root> <pattern> <graph>`  with mode ∈ impl | implx | spec | commute.
 Tokens (no spaces inside a token; `_` = None / absent; strings from `[A-Za-z0-9.]*`):
 
 pattern := `P` cond nin name* nnodes node* nout vpat*
@@ -246,6 +248,11 @@ def showConst (c : ConstPat) : String :=
 def showConsts (p : GPat) : String :=
   ";".intercalate (p.nodes.map (fun n => ",".intercalate (n.consts.map showConst)))
 
+def showResultX : Except Exc (Option Result) → String
+  | .error .valueError => "EXC:ValueError"
+  | .error .notImplemented => "EXC:NotImplementedError"
+  | .ok o => showResult o
+
 def handle (args : List String) : String :=
   match args with
   | modeTok :: rm :: root :: rest =>
@@ -272,19 +279,24 @@ def handle (args : List String) : String :=
       | "impl" =>
         if !p.ctorOk then "CTOR-ERR" else
         s!"on={showNodes p.outputNodes} " ++ showResult (patternMatch E root rm)
+      | "implx" =>
+        -- the matcher with its exception channel (`OV.Model.C06Exc`); committed revision only
+        if !p.ctorOk then "CTOR-ERR" else
+        s!"on={showNodes p.outputNodes} " ++ showResultX (patternMatchX E root rm)
       | "spec" =>
         if !p.ctorOk then "CTOR-ERR" else
         let sols := solve E root rm
         s!"S{sols.length}" ++ String.join (sols.map (fun s => " || " ++ showSol s))
       | "commute" =>
         if !p.ctorOk then "CTOR-ERR" else
-        (match commute fix7a p fix7b fix7c with
+        -- `RewriteRule(p, remove_nodes=rm).commute()`, every variant rule matched as `try_rewrite` does
+        (match Rule.commute fix7a { p := p, removeNodes := rm } fix7b fix7c with
          | .error .assertion => "ERR:assertion"
          | .error .valueError => "ERR:valueerror"
          | .error .notImplemented => "ERR:notimplemented"
-         | .ok ps =>
-           s!"K{ps.length}" ++ String.join (ps.map (fun q =>
-             " || " ++ showResult (patternMatch { E with p := q } root rm) ++ " #K " ++ showConsts q)))
+         | .ok rs =>
+           s!"K{rs.length}" ++ String.join (rs.map (fun v =>
+             " || " ++ showResultX (Rule.tryMatch E v root) ++ " #K " ++ showConsts v.p)))
       | _ => "bad-mode"
     | _, _ => "bad-parse"
   | _ => "bad-args"
